@@ -865,7 +865,7 @@ def diff_class(d):
 # one scenario
 # ---------------------------------------------------------------------------------------------
 
-def scenario(col, name, part, doc, links, wit, backend, cycles=2):
+def scenario(col, name, part, doc, links, wit, backend, cycles=2, save_load=True):
     """part: 'finalize' -> first sentence only;  'restore' -> whole life cycle."""
     pairs = [(l.sec, l.keep_ids) for l in links]
     original_model = model_tree(h.snap_doc(doc, True, False))
@@ -903,7 +903,7 @@ def scenario(col, name, part, doc, links, wit, backend, cycles=2):
                      witness=dict(wit, stage='clean#%d' % cyc), detail='clean() raised %r' % (res,))
             return 'clean-raised'
         check_restored(col, name, doc, links, restore0, wit, 'clean#%d' % cyc)
-        if cyc == 1:
+        if cyc == 1 and save_load:
             _save_load(col, name, doc, links, original_model, wit, backend)
         kind, res = h.call(doc.finalize)
         if kind == 'exc':
@@ -919,6 +919,7 @@ def scenario(col, name, part, doc, links, wit, backend, cycles=2):
     kind, res = h.call(doc.clean)
     if kind == 'ret':
         check_restored(col, name, doc, links, restore0, wit, 'clean#last')
+    if kind == 'ret' and save_load:
         _save_load(col, name, doc, links, original_model, dict(wit, stage='clean#last'),
                    'JSON' if backend == 'XML' else 'XML', full=False)
     # resolving twice without a clean in between adds nothing new: one clean still restores the document
@@ -1233,6 +1234,153 @@ def _build_named_include(shape, l, url, term, tpath, own, naming, origin):
     return doc, [lk]
 
 
+# ---- tree positions: where the linking Section and its target sit, and how the Sections on the way are named ----
+#
+# A case is a pair of name paths (A = linking Section, B = target), neither a prefix of the other.  The document is
+# the union of both paths (every Section on them carrying a Property), the target owning children of its own.
+# Unlike the shape scenarios above the names are NOT distinct: the same name occurs again in the other branch at
+# the same or at another depth, along one path (a/b/a), and names are character prefixes of one another.
+
+POS_ALPHABET = ['a', 'ab', 'b']
+
+
+def pos_feature(A, B):
+    """Stable label of what is special about the names on the two paths (first applicable wins)."""
+    c = 0
+    while c < len(A) and c < len(B) and A[c] == B[c]:
+        c += 1
+    if any(A[i] == B[i] for i in range(c + 1, min(len(A), len(B)))):
+        return 'same-name-same-depth-in-other-branch'
+    if set(A[c:]) & set(B[c:]):
+        return 'same-name-other-depth-in-other-branch'
+    if set(A[c:] + B[c:]) & set(A[:c]):
+        return 'name-of-common-ancestor-repeated-below-branch-point'
+    if len(set(A)) != len(A) or len(set(B)) != len(B):
+        return 'name-repeated-along-one-path'
+    if A[c].startswith(B[c]) or B[c].startswith(A[c]):
+        return 'sibling-names-prefix-of-one-another-at-branch-point'
+    if any(x != y and (x.startswith(y) or y.startswith(x)) for x in A for y in B):
+        return 'names-prefix-of-one-another'
+    return 'all-names-distinct'
+
+
+def pos_patterns():
+    """name pattern -> function (c, u, d) -> (A, B): c common ancestors, the linking Section u levels and the target d
+    levels below the branch point."""
+    def common(c, names=('r0', 'r1', 'r2')):
+        return list(names[:c])
+    pats = {}
+    pats['distinct'] = lambda c, u, d: (common(c) + ['x%d' % i for i in range(u)], common(c) + ['y%d' % i for i in range(d)])
+    # parallel branches: below the two differently named branch roots the same names at the same depth
+    pats['parallel'] = lambda c, u, d: (common(c) + ['x0'] + ['k%d' % i for i in range(1, u)],
+                                        common(c) + ['y0'] + ['k%d' % i for i in range(1, d)])
+    # only the deepest depth both paths reach has the same name
+    pats['same-at-deepest-shared-depth'] = lambda c, u, d: (
+        common(c) + [('same' if i == min(u, d) - 1 and i > 0 else 'x%d' % i) for i in range(u)],
+        common(c) + [('same' if i == min(u, d) - 1 and i > 0 else 'y%d' % i) for i in range(d)])
+    # the names of the other branch one level deeper (same names, never at the same depth)
+    pats['shifted'] = lambda c, u, d: (common(c) + ['s%d' % i for i in range(u)], common(c) + ['s%d' % (i + 1) for i in range(d)])
+    # one name again and again along each path (a/b/a/b...), the common ancestors included
+    pats['alternating'] = lambda c, u, d: (common(c, ('a', 'b', 'a')) + [('a', 'b')[(c + i) % 2] for i in range(u)],
+                                           common(c, ('a', 'b', 'a')) + ['c'] + [('a', 'b')[(c + i) % 2] for i in range(1, d)])
+    # every name a character prefix of the next: the branch roots are 'a' / 'ab', below them 'abc', 'abcd'...
+    pats['prefixes'] = lambda c, u, d: (common(c, ('a', 'ab', 'abc')) + ['ab'] + ['a' + 'bcdef'[:i] for i in range(1, u)],
+                                        common(c, ('a', 'ab', 'abc')) + ['a'] + ['ab' + 'cdefg'[:i] for i in range(1, d)])
+    pats['prefixes-reversed'] = lambda c, u, d: (common(c, ('abc', 'ab', 'a')) + ['a'] + ['abcd'[:4 - i] for i in range(1, u)],
+                                                 common(c, ('abc', 'ab', 'a')) + ['ab'] + ['abcd'[:4 - i] for i in range(1, d)])
+    return pats
+
+
+def is_prefix(A, B):
+    return A[:len(B)] == B or B[:len(A)] == A
+
+
+def alphabet_paths(max_len):
+    out = []
+    for n in range(1, max_len + 1):
+        out += [list(p) for p in itertools.product(POS_ALPHABET, repeat=n)]
+    return out
+
+
+def position_scenarios(tier, seed, part):
+    """(1) patterns: c common ancestors 0..2 x linking Section 1..4 levels x target 1..4 levels below the branch point
+    (target above / beside / below the linking Section, depth difference 0..3, either at top level) x name pattern;
+    (2) every pair of paths of length <= L over the names a, ab, b (L = 2 quick, 3 thorough), neither a prefix of the other.
+    Path form, own children of the linking Section and the sibling order (linking branch first | target branch first) are
+    all combined in the thorough tier and rotate in the quick tier."""
+    owns = list(RESTORING) if part == 'restore' else ['none', 'other-names', 'same-name-property', 'same-name-section']
+    hows = ('absolute', 'relative')
+    rnd = random.Random('c12-pos-%s-%s' % (part, seed))
+    n = 0
+    pairs = []
+    for pi, (pname, fn) in enumerate(sorted(pos_patterns().items())):
+        for c in range(3):
+            for u in range(1, 5):
+                for d in range(1, 5):
+                    if tier == 'quick' and (pi + c + u + d) % 2:      # quick: half of the grid, alternating with the pattern
+                        continue
+                    A, B = fn(c, u, d)
+                    if not is_prefix(A, B):
+                        pairs.append((pname, A, B))
+    paths = alphabet_paths(2 if tier == 'quick' else 3)
+    for A in paths:
+        for B in paths:
+            if not is_prefix(A, B):
+                pairs.append(('alphabet', A, B))
+    for pname, A, B in pairs:
+        n += 1
+        if tier == 'quick':
+            if part == 'finalize' and pname != 'alphabet' and n % 3:
+                continue
+            combos = [(rnd.choice(hows), rnd.choice(owns), rnd.randrange(2))]
+        elif pname == 'alphabet' and len(A) + len(B) == 6:
+            combos = [(how, owns[(n + i) % len(owns)], (n // 2 + i) % 2) for i, how in enumerate(hows)]
+        else:
+            combos = [(how, own, (n + i + j) % 2) for i, how in enumerate(hows) for j, own in enumerate(owns)]
+        for how, own, target_first in combos:
+            yield ({'positions': {'linking': '/' + '/'.join(A), 'target': '/' + '/'.join(B), 'target_branch_first': bool(target_first)},
+                    'links': [[how, own]], 'pattern': pname},
+                   (lambda A=A, B=B, how=how, own=own, target_first=target_first: _build_positions(A, B, how, own, target_first)))
+
+
+def _build_positions(A, B, how, own, target_first):
+    c = 0
+    while A[c] == B[c]:
+        c += 1
+    text = '/' + '/'.join(B) if how == 'absolute' else '../' * (len(A) - c) + '/'.join(B[c:])
+    made = {}
+    with h.quiet():
+        doc = odml.Document(author='me', version='1')
+
+        def add(path, link=None):
+            parent = doc
+            for i in range(len(path)):
+                key = tuple(path[:i + 1])
+                if key not in made:
+                    depth = i + 1
+                    made[key] = odml.Section(name=path[i], type=['t', 'setup/daq'][depth % 2], parent=parent,
+                                             definition='at depth %d' % depth if depth % 3 else None,
+                                             link=link if depth == len(path) else None)
+                    odml.Property(name='v%d_%d' % (depth, len(made)), dtype='int', values=[depth, len(made)], parent=made[key])
+                parent = made[key]
+            return parent
+        if target_first:
+            target, linking = add(B), add(A, text)
+        else:
+            linking, target = add(A, text), add(B)
+        # children of the target: names of the alphabet again (a path like .../a/b/a), two levels
+        sub = odml.Section(name='a', type='t', parent=target, definition='child of the target')
+        odml.Property(name='inner', values=['i', 'j'], parent=sub)
+        deep = odml.Section(name=B[-1], type='t', parent=sub)
+        odml.Property(name='deep', dtype='float', values=[1.5], parent=deep)
+        odml.Section(name='ab', type='setup/daq', parent=target)
+        odml.Property(name='a', dtype='string', values=['named like a child Section'], parent=target)
+        odml.Property(name='tp', dtype='int', values=[1, 2], unit='mV', parent=target)
+    if not add_own_children(linking, target, own):
+        return None, None
+    return doc, [Link(linking, target, how, own, naming='tree-position ' + pos_feature(A, B))]
+
+
 # ---------------------------------------------------------------------------------------------
 # run_*
 # ---------------------------------------------------------------------------------------------
@@ -1250,14 +1398,19 @@ def _run(part, tier, seed):
             'position class of L and T, number of references, outcome). The same over shapes up to N-1 Sections with '
             'every object named by one of the modes [%s] (every Section additionally owning children of that mode), own '
             'children of L also with nearly the names of T\'s children%s, the document built | cloned | loaded from '
-            'XML/JSON/YAML; includes of Sections of one published document per naming mode'
+            'XML/JSON/YAML; includes of Sections of one published document per naming mode. Tree positions with repeated '
+            'names: 0..2 common ancestors x linking Section 1..4 x target 1..4 levels below the branch point x name pattern '
+            '(distinct | parallel branches with the same names at the same depth | same name at the deepest shared depth | '
+            'names of the other branch shifted by one level | a/b/a/b along each path | names that are prefixes of one '
+            'another), and every pair of paths up to length L over the names a, ab, b'
             % (', '.join(OWN if part == 'finalize' else RESTORING), ', '.join(NAMINGS),
                ' or named like a child of the other kind' if part == 'finalize' else ''))
     col = Col(name, rule=rule, exhaustive=False)
     with Env() as env:
         n = 0
         for wit, builder in itertools.chain(link_scenarios(tier, seed, part), include_scenarios(env, tier, seed, part),
-                                            naming_link_scenarios(tier, seed, part), naming_include_scenarios(env, tier, seed, part)):
+                                            naming_link_scenarios(tier, seed, part), naming_include_scenarios(env, tier, seed, part),
+                                            position_scenarios(tier, seed, part)):
             doc, links = builder()
             if doc is None:
                 SKIPPED.append(wit)
@@ -1268,7 +1421,9 @@ def _run(part, tier, seed):
             if tier == 'quick' and 'naming' in wit and backend == 'YAML' and n % 7:      # the slowest format less often
                 backend = BACKENDS[n % 2]
             n += 1
-            outcome = scenario(col, name, part, doc, links, wit, backend)
+            # quick tier: the tree-position cases go through save/load every third time only
+            outcome = scenario(col, name, part, doc, links, wit, backend,
+                               save_load=not (tier == 'quick' and 'positions' in wit and n % 3))
             col.case(cls_key=(tuple(sorted((l.how, l.own, _position(l)) for l in links)), len(links), outcome,
                               links[0].naming, links[0].origin),
                      sample=json.dumps(wit))
